@@ -291,6 +291,28 @@ type vgPosBase struct {
 	Tokens []lexer.Token
 }
 
+// embedded structs whose tagged fields share a Go name with an outer field or
+// with a field of a sibling embedded struct (every tagged field is part of
+// the grammar, whatever Go's selector rules say about shadowing)
+type vgShadowInner struct {
+	Name string `@A`
+}
+
+type vgShadowSib1 struct {
+	V string `( @B`
+}
+
+type vgShadowSib2 struct {
+	V string `  | @C )?`
+}
+
+type vgShadow struct {
+	vgShadowInner
+	Name string `"=" @A`
+	vgShadowSib1
+	vgShadowSib2
+}
+
 type vgPosEmbedded struct {
 	vgPosBase
 	A string `@A`
@@ -318,6 +340,7 @@ var (
 )
 
 func VH_C01_Seq()        { vhC01[vgSeq](vhNoElide) }
+func VH_C01_Shadow()     { vhC01[vgShadow](vhElideWs) }
 func VH_C01_FarTypes()   { vhC01[vgGroup](vhFarElide) }
 func VH_C01_Alt()        { vhC01[vgAlt](vhNoElide) }
 func VH_C01_Opt()        { vhC01[vgOpt](vhNoElide) }
